@@ -64,7 +64,8 @@ def mask_resolver(prog, fn, params, at):
             d = defs[0]
             if isinstance(d, ast.BinOp) and not isinstance(d.op, (ast.BitAnd, ast.BitOr)):
                 return None
-            if isinstance(d, ast.Call) and call_name(d) not in ("np.logical_and", "np.logical_or", "np.invert", "np.logical_not", "np.isfinite", "np.isinf"):
+            if isinstance(d, ast.Call) and call_name(d) not in ("np.logical_and", "np.logical_or", "np.invert", "np.logical_not", "np.isfinite", "np.isinf",
+                                                                  "bool", "np.bool_", "np.all", "np.any", "all", "any"):
                 return None
             return d
         return None
